@@ -319,6 +319,7 @@ func (r *runtime) InstantiateModule(
 	// Only add guest module configuration to guests.
 	if !code.module.IsHostModule {
 		if sockConfig, ok := ctx.Value(internalsock.ConfigKey{}).(*internalsock.Config); ok {
+			config = config.clone() // don't mutate the caller's config.
 			config.sockConfig = sockConfig
 		}
 	}
